@@ -322,9 +322,9 @@ def d3_dispatch(ctx):
 
 
 def run(ctx):
-    d1_single_selector(ctx)
-    d2_provenance(ctx)
-    d2b_returned_index(ctx)
-    d3_dispatch(ctx)
+    ctx.run(d1_single_selector)
+    ctx.run(d2_provenance)
+    ctx.run(d2b_returned_index)
+    ctx.run(d3_dispatch)
     from rules import C09
-    C09.d1_sync_gain(ctx, rule_id="D4")
+    ctx.run(C09.d1_sync_gain, rule_id="D4")
